@@ -1,6 +1,9 @@
 #![doc = include_str!("../README.md")]
 #![warn(missing_docs, missing_debug_implementations)]
 
+#[cfg(feature = "verif")]
+#[allow(unused_imports)]
+use crate::verif::{core, std};
 pub(crate) mod backoff;
 pub(crate) mod internal;
 #[cfg(not(feature = "std-mutex"))]
@@ -11,6 +14,8 @@ mod error;
 #[cfg(feature = "async")]
 mod future;
 mod signal;
+#[cfg(feature = "verif")]
+pub mod verif;
 
 pub use error::*;
 #[cfg(feature = "async")]
@@ -748,6 +753,8 @@ impl<T> Sender<T> {
                 // Safety: data failed to move, sender should drop it if it
                 // needs to
                 if needs_drop::<T>() {
+                    #[cfg(feature = "verif")]
+                    verif::read(data.as_ptr() as usize, size_of::<T>());
                     unsafe { data.assume_init_drop() }
                 }
                 return Err(SendError::Closed);
@@ -808,6 +815,8 @@ impl<T> Sender<T> {
                     // Safety: data failed to move, sender should drop it if it
                     // needs to
                     if needs_drop::<T>() {
+                        #[cfg(feature = "verif")]
+                        verif::read(data.as_ptr() as usize, size_of::<T>());
                         unsafe { data.assume_init_drop() }
                     }
                     return Err(SendErrorTimeout::Closed);
@@ -823,6 +832,8 @@ impl<T> Sender<T> {
                     // Safety: data failed to move, sender should drop it if it
                     // needs to
                     if needs_drop::<T>() {
+                        #[cfg(feature = "verif")]
+                        verif::read(data.as_ptr() as usize, size_of::<T>());
                         unsafe { data.assume_init_drop() }
                     }
                     return Err(SendErrorTimeout::Closed);
@@ -1146,6 +1157,8 @@ impl<T> Receiver<T> {
             // Safety: it's safe to assume init as data is forgotten on another
             // side
             if size_of::<T>() > size_of::<*mut T>() {
+                #[cfg(feature = "verif")]
+                verif::read(ret.as_ptr() as usize, size_of::<T>());
                 Ok(unsafe { ret.assume_init() })
             } else {
                 Ok(unsafe { sig.assume_init() })
@@ -1202,6 +1215,8 @@ impl<T> Receiver<T> {
             // Safety: it's safe to assume init as data is forgotten on another
             // side
             if size_of::<T>() > size_of::<*mut T>() {
+                #[cfg(feature = "verif")]
+                verif::read(ret.as_ptr() as usize, size_of::<T>());
                 Ok(unsafe { ret.assume_init() })
             } else {
                 Ok(unsafe { sig.assume_init() })
